@@ -25,6 +25,14 @@ PROP = 'C05'
 PROP_FILE = 'Props/C05.v'
 THEOREMS = [
     'C05_parse_back',
+    'C05_lengths_digests',
+    'C05_payload_after_header',
+    'C05_revisit_block',
+    'C05_fields_single_line',
+    'C05_files_are_record_sequences',
+    'C05_archive_valid',
+    'C05_one_member_per_record',
+    'C05_points_at_warcinfo',
 ]
 TRUSTED = [
     'hand-written model Model/Warc.v + Model/WarcText.v of wpull/warc/format.py, warc/recorder.py and the part of namevalue.py they use, '
@@ -378,6 +386,8 @@ def gen_case(r, idx, force_cdx=False):
     if r.random() < 0.35:
         runs.append(gen_run(r, idx, run1['cfg'], force_cdx))
     case = {'idx': idx, 'runs': runs, 'mkdirs': ['sub']}
+    if r.random() < 0.2 and len(run1['sessions']) >= 2:
+        case['tune'] = r.random()       # max_size := an exact file size reached in this very run (boundary of the rollover test)
     if r.random() < 0.15:
         p = run1['cfg']['prefix']
         ext = '.warc.gz' if run1['cfg']['compress'] else '.warc'
@@ -800,9 +810,34 @@ def _b(x):
 
 
 # ----------------------------------------------------------------------------------
+def _tune_max_size(cases):
+    """boundary bias for flush_session's size test: a first pass with an unreachable max_size tells the
+    sizes the first numbered file goes through; max_size is then set to one of them"""
+    import copy
+    tuned = [c for c in cases if c.get('tune') is not None and 'tuned' not in c]
+    if not tuned:
+        return
+    probes = []
+    for c in tuned:
+        p = copy.deepcopy(c)
+        p['runs'] = p['runs'][:1]
+        p['runs'][0]['cfg']['max_size'] = 10 ** 9
+        probes.append(p)
+    chunks = [probes[i:i + 25] for i in range(0, len(probes), 25)]
+    outs = common.run_impl_sharded(IMPL, [{'cases': ch} for ch in chunks], par=6)
+    res = [r for o in outs for r in o['results']]
+    for c, r in zip(tuned, res):
+        ws = r['runs'][0].get('writes') or []
+        c['tuned'] = True
+        if len(ws) >= 3:
+            j = 1 + int(c['tune'] * (len(ws) - 2))
+            c['runs'][0]['cfg']['max_size'] = ws[j]['after']
+
+
 def run_impl(cases, shard=25):
     for c in cases:
         _resolve_visits(c)
+    _tune_max_size(cases)
     chunks = [cases[i:i + shard] for i in range(0, len(cases), shard)]
     outs = common.run_impl_sharded(IMPL, [{'cases': c} for c in chunks], par=6)
     res = []
@@ -827,7 +862,7 @@ def evaluate(cases, results):
 
 
 def _replay_case(c):
-    return {'idx': c['idx'], 'runs': c['runs'], 'mkdirs': c.get('mkdirs'), 'preexisting': c.get('preexisting')}
+    return {'idx': c['idx'], 'runs': c['runs'], 'mkdirs': c.get('mkdirs'), 'preexisting': c.get('preexisting'), 'tuned': True}
 
 
 C07_WHYS = ('cdx-',)
@@ -861,7 +896,33 @@ def model_compare(cases, results, default_software, limit=None, per_file=8):
                 continue
             items.append((c, ri, coq_check(run, obs, default_software)))
     if limit is not None:
-        items = items[:limit]
+        # boundary cases first: max_size tuned to a size the file really reaches; appending into a directory that has numbered files
+        def prio(it):
+            c, ri, _ = it
+            cfg = c['runs'][ri]['cfg']
+            if c.get('tuned') and ri == 0:
+                return 0
+            if cfg['appending'] and cfg['max_size'] and (ri > 0 or c.get('preexisting')):
+                return 1
+            return 2
+        items.sort(key=prio)
+        # limit = budget in characters of Coq input (parsing the byte-string literals dominates the cost)
+        kept, total = [], 0
+        for it in items:
+            if total + len(it[2]) > limit and kept:
+                continue
+            kept.append(it)
+            total += len(it[2])
+        items = kept
+    # balance the files by size
+    items.sort(key=lambda it: -len(it[2]))
+    n_files = max(1, min(12, (len(items) + 3) // 4))
+    per_file = (len(items) + n_files - 1) // n_files if items else 1
+    order = []
+    for k in range(n_files):
+        order += items[k::n_files]
+    items = order
+    per_file = max(1, (len(items) + n_files - 1) // n_files)
     bodies = []
     for i in range(0, len(items), per_file):
         terms = [t for _, _, t in items[i:i + per_file]]
@@ -890,6 +951,7 @@ def _distribution(cases, stats):
     for key in ('compress', 'digests', 'appending', 'log', 'cdx', 'revisit'):
         d['cfg_' + key] = sum(1 for c in cases for r in c['runs'] if r['cfg'].get(key))
     d['cfg_max_size'] = sum(1 for c in cases for r in c['runs'] if r['cfg'].get('max_size') is not None)
+    d['max_size_tuned_to_a_reached_size'] = sum(1 for c in cases if c.get('tuned'))
     d['two_lifetimes'] = sum(1 for c in cases if len(c['runs']) > 1)
     hs = [s for c in cases for r in c['runs'] for s in r['sessions'] if s['kind'] == 'http']
     d['http_sessions'] = len(hs)
@@ -949,7 +1011,7 @@ def correspondence_for(ctx, tag, n_quick, n_thorough, model_limit_quick, force_c
 
 
 def correspondence(ctx):
-    return correspondence_for(ctx, 'c05', 260, 6000, 100, only=lambda v: not is_c07(v))
+    return correspondence_for(ctx, 'c05', 260, 6000, 800000, only=lambda v: not is_c07(v))
 
 
 def search(ctx, disagreements):
